@@ -165,7 +165,11 @@ class Variant {
   void Become(std::int32_t target_index, Args&&... args) {
     if (target_index != index()) {
       Destruct();
-      index_ = value_.Become(target_index, std::forward<Args>(args)...)
+      // A negative index is never valid. It is rejected here because the
+      // union walk below counts the index down once per level, which would
+      // overflow for indices near the minimum of the type.
+      index_ = target_index >= 0 &&
+                       value_.Become(target_index, std::forward<Args>(args)...)
                    ? target_index
                    : kEmptyIndex;
     }
